@@ -73,6 +73,20 @@ type ProbeRec struct {
 	Text        string // text the innermost decorator formatted (when reached)
 }
 
+// CallRec is one bar operation as the client saw it: invocation and return in
+// event-sequence numbers (a total order that does not depend on the clock).
+type CallRec struct {
+	Client int    `json:"client"`
+	Bar    int    `json:"bar"`
+	Op     string `json:"op"` // incr setcur settotal etc abort current completed aborted
+	N      int64  `json:"n"`
+	Flag   bool   `json:"flag"`
+	Inv    int64  `json:"inv"`
+	Ret    int64  `json:"ret"`
+	OutN   int64  `json:"out_n"` // getter results
+	OutB   bool   `json:"out_b"`
+}
+
 type Hang struct {
 	Kind       string // deadlock | livelock | stuck
 	Where      []string
@@ -107,6 +121,7 @@ type Trace struct {
 	StepSeq         []int64 // event seq at the end of each top-level step
 	OutputErrs      int
 	FillCalls       map[int]int
+	Calls           []CallRec
 	TagCalls        map[int]int // renders per bar (the row tag decorator is called once per render)
 	Leaks           []G
 	LeakUndecided   bool
@@ -119,6 +134,15 @@ type Trace struct {
 	LateProxies     int      // ProxyReader/ProxyWriter calls made after Wait returned
 	LateProxyNonNil int      // ... that returned a non-nil proxy
 	LateChunksAfter int      // output writes caused by late calls
+}
+
+// StepSeqLast is the event sequence number at the end of the last program step
+// (everything later belongs to the epilogue).
+func (t *Trace) StepSeqLast() int64 {
+	if len(t.StepSeq) == 0 {
+		return 0
+	}
+	return t.StepSeq[len(t.StepSeq)-1]
 }
 
 type EwmaSample struct {
@@ -575,6 +599,28 @@ func (r *runner) buildBarOptions(idx int) (mpb.BarFiller, []mpb.BarOption) {
 			app = append(app, d)
 		}
 	}
+	for _, b := range spec.Builtins {
+		switch b {
+		case "avgeta":
+			app = append(app, decor.AverageETA(decor.ET_STYLE_GO))
+		case "avgspeed":
+			app = append(app, decor.AverageSpeed(decor.SizeB1024(0), "% .1f"))
+		case "ewmaeta":
+			app = append(app, decor.EwmaETA(decor.ET_STYLE_MMSS, 30))
+		case "ewmaspeed":
+			app = append(app, decor.EwmaSpeed(decor.SizeB1000(0), "% .1f", 30))
+		case "pct":
+			app = append(app, decor.Percentage(decor.WCSyncSpace))
+		case "counters":
+			app = append(app, decor.CountersNoUnit("%d / %d"))
+		case "elapsed":
+			app = append(app, decor.OnComplete(decor.Elapsed(decor.ET_STYLE_GO), "ok"))
+		case "name":
+			pre = append(pre, decor.Name("n"))
+		case "spinner":
+			pre = append(pre, decor.Spinner(nil))
+		}
+	}
 	opts = append(opts, mpb.PrependDecorators(pre...), mpb.AppendDecorators(app...))
 	if spec.Priority != nil {
 		opts = append(opts, mpb.BarPriority(*spec.Priority))
@@ -697,9 +743,62 @@ func Run(sc *Scenario, opt Options) *Trace {
 	}
 	r.tr.Debug = r.debug.String()
 	r.tr.Cycles = r.cycle.Load()
-	tr := r.tr
+	// hand out a copy: goroutines of a hung or abandoned run may still be inside
+	// the hook and go on recording into r.tr
+	tr := r.tr.clone()
 	r.mu.Unlock()
 	return tr
+}
+
+func (t *Trace) clone() *Trace {
+	c := *t
+	c.Chunks = append([]Chunk(nil), t.Chunks...)
+	c.Events = append([]Event(nil), t.Events...)
+	c.Gets = append([]GetRec(nil), t.Gets...)
+	c.Writes = append([]WriteRec(nil), t.Writes...)
+	c.Adds = append([]AddRec(nil), t.Adds...)
+	c.Probes = append([]ProbeRec(nil), t.Probes...)
+	c.Calls = append([]CallRec(nil), t.Calls...)
+	c.Final = append([]GetRec(nil), t.Final...)
+	c.FinalLate = append([]GetRec(nil), t.FinalLate...)
+	c.LateAdds = append([]AddRec(nil), t.LateAdds...)
+	c.LateWrites = append([]WriteRec(nil), t.LateWrites...)
+	c.Added = append([]bool(nil), t.Added...)
+	c.StepSeq = append([]int64(nil), t.StepSeq...)
+	c.BarWaitStuck = append([]int(nil), t.BarWaitStuck...)
+	c.Leaks = append([]G(nil), t.Leaks...)
+	c.Notified = append([][]int(nil), t.Notified...)
+	c.PtyStream = append([]byte(nil), t.PtyStream...)
+	if t.PtyStream == nil {
+		c.PtyStream = nil
+	}
+	c.Shutdowns = map[[2]int]int{}
+	for k, v := range t.Shutdowns {
+		c.Shutdowns[k] = v
+	}
+	if t.ShutdownsAtWait != nil {
+		c.ShutdownsAtWait = map[[2]int]int{}
+		for k, v := range t.ShutdownsAtWait {
+			c.ShutdownsAtWait[k] = v
+		}
+	}
+	c.EwmaSamples = map[[2]int][]EwmaSample{}
+	for k, v := range t.EwmaSamples {
+		c.EwmaSamples[k] = append([]EwmaSample(nil), v...)
+	}
+	c.FillCalls = map[int]int{}
+	for k, v := range t.FillCalls {
+		c.FillCalls[k] = v
+	}
+	c.TagCalls = map[int]int{}
+	for k, v := range t.TagCalls {
+		c.TagCalls[k] = v
+	}
+	if t.Hang != nil {
+		h := *t.Hang
+		c.Hang = &h
+	}
+	return &c
 }
 
 func (r *runner) watchdog(done <-chan struct{}) {
@@ -1033,10 +1132,16 @@ func (r *runner) finishBars() {
 			}
 		}
 		if how == "abort" {
+			inv := r.seq.Add(1)
 			b.Abort(i%3 == 0)
+			r.logCall(CallRec{Bar: i, Op: "abort", Flag: i%3 == 0, Inv: inv, Ret: r.seq.Add(1)})
 		} else {
+			inv := r.seq.Add(1)
 			b.SetTotal(-1, true)
+			mid := r.seq.Add(1)
+			r.logCall(CallRec{Bar: i, Op: "settotal", N: -1, Flag: true, Inv: inv, Ret: mid})
 			b.SetCurrent(math.MaxInt64)
+			r.logCall(CallRec{Bar: i, Op: "setcur", N: math.MaxInt64, Inv: mid, Ret: r.seq.Add(1)})
 		}
 	}
 }
@@ -1079,7 +1184,19 @@ func (r *runner) tick() bool {
 	return true
 }
 
+func (r *runner) logCall(c CallRec) {
+	r.mu.Lock()
+	if len(r.tr.Calls) < 100000 {
+		r.tr.Calls = append(r.tr.Calls, c)
+	}
+	r.mu.Unlock()
+}
+
 func (r *runner) runStep(st *Step, idx, depth int) {
+	r.runStepC(st, idx, depth, 0)
+}
+
+func (r *runner) runStepC(st *Step, idx, depth, client int) {
 	if depth == 0 {
 		r.curStep.Store(fmt.Sprintf("step %d %s bar=%d", idx, st.Op, st.Bar))
 	}
@@ -1108,6 +1225,14 @@ func (r *runner) runStep(st *Step, idx, depth int) {
 		r.mu.Unlock()
 	case "incr":
 		if b != nil {
+			inv := r.seq.Add(1)
+			defer func() {
+				n := st.N
+				if st.Text == "one" || st.Text == "ewmaone" {
+					n = 1
+				}
+				r.logCall(CallRec{Client: client, Bar: st.Bar, Op: "incr", N: n, Inv: inv, Ret: r.seq.Add(1)})
+			}()
 			switch st.Text {
 			case "by":
 				b.IncrBy(int(st.N))
@@ -1125,6 +1250,10 @@ func (r *runner) runStep(st *Step, idx, depth int) {
 		}
 	case "setcur":
 		if b != nil {
+			inv := r.seq.Add(1)
+			defer func() {
+				r.logCall(CallRec{Client: client, Bar: st.Bar, Op: "setcur", N: st.N, Inv: inv, Ret: r.seq.Add(1)})
+			}()
 			if st.Text == "ewma" {
 				b.EwmaSetCurrent(st.N, time.Millisecond)
 			} else {
@@ -1133,15 +1262,21 @@ func (r *runner) runStep(st *Step, idx, depth int) {
 		}
 	case "settotal":
 		if b != nil {
+			inv := r.seq.Add(1)
 			b.SetTotal(st.N, st.Flag)
+			r.logCall(CallRec{Client: client, Bar: st.Bar, Op: "settotal", N: st.N, Flag: st.Flag, Inv: inv, Ret: r.seq.Add(1)})
 		}
 	case "etc":
 		if b != nil {
+			inv := r.seq.Add(1)
 			b.EnableTriggerComplete()
+			r.logCall(CallRec{Client: client, Bar: st.Bar, Op: "etc", Inv: inv, Ret: r.seq.Add(1)})
 		}
 	case "abort":
 		if b != nil {
+			inv := r.seq.Add(1)
 			b.Abort(st.Flag)
+			r.logCall(CallRec{Client: client, Bar: st.Bar, Op: "abort", Flag: st.Flag, Inv: inv, Ret: r.seq.Add(1)})
 		}
 	case "refill":
 		if b != nil {
@@ -1238,7 +1373,17 @@ func (r *runner) runStep(st *Step, idx, depth int) {
 		}
 	case "get":
 		if b != nil {
-			g := GetRec{Step: idx, Bar: st.Bar, Cur: b.Current(), Completed: b.Completed(), Aborted: b.Aborted(), Running: b.IsRunning()}
+			i1 := r.seq.Add(1)
+			cur := b.Current()
+			i2 := r.seq.Add(1)
+			comp := b.Completed()
+			i3 := r.seq.Add(1)
+			ab := b.Aborted()
+			i4 := r.seq.Add(1)
+			r.logCall(CallRec{Client: client, Bar: st.Bar, Op: "current", Inv: i1, Ret: i2, OutN: cur})
+			r.logCall(CallRec{Client: client, Bar: st.Bar, Op: "completed", Inv: i2, Ret: i3, OutB: comp})
+			r.logCall(CallRec{Client: client, Bar: st.Bar, Op: "aborted", Inv: i3, Ret: i4, OutB: ab})
+			g := GetRec{Step: idx, Bar: st.Bar, Cur: cur, Completed: comp, Aborted: ab, Running: b.IsRunning()}
 			g.Seq = r.seq.Add(1)
 			r.mu.Lock()
 			r.tr.Gets = append(r.tr.Gets, g)
@@ -1288,8 +1433,9 @@ func (r *runner) runStep(st *Step, idx, depth int) {
 		}
 	case "par":
 		var wg sync.WaitGroup
-		for _, blk := range st.Par {
+		for bi, blk := range st.Par {
 			blk := blk
+			cid := bi + 1
 			wg.Add(1)
 			go func() {
 				defer wg.Done()
@@ -1297,7 +1443,7 @@ func (r *runner) runStep(st *Step, idx, depth int) {
 					if r.aborted() {
 						return
 					}
-					r.runStep(&blk[i], idx, depth+1)
+					r.runStepC(&blk[i], idx, depth+1, cid)
 				}
 			}()
 		}
